@@ -178,14 +178,14 @@ def scan_assumptions(text):
         out[k] = len(re.findall(re.escape(k), text))
     return out
 
-def build_unit(src, out_path, stub_fns=(), drop_uses=(), drop_contract_fns=(), ext_consts=(), renames=None):
+def build_unit(src, out_path, stub_fns=(), drop_uses=(), drop_contract_fns=(), ext_consts=(), renames=None, inline_fns=()):
     os.environ["VERIF_REPO_SRC"] = src
     extract.REPO_SRC = src
     specs = sorted(glob.glob(os.path.join(VERIF, "contracts", "*.vspec")))
     shims = sorted(glob.glob(os.path.join(VERIF, "shims", "*.rs"))) + sorted(glob.glob(os.path.join(VERIF, "specs", "*.rs")))
     rx = re.compile(CONFIG["exclude"]) if CONFIG.get("exclude") else None
     inc = (lambda rel: not rx.search(rel)) if rx else None
-    return extract.build(inc, (), specs, shims, out_path, stub_fns=stub_fns, drop_uses=drop_uses, drop_contract_fns=drop_contract_fns, ext_consts=ext_consts, renames=renames)
+    return extract.build(inc, (), specs, shims, out_path, stub_fns=stub_fns, drop_uses=drop_uses, drop_contract_fns=drop_contract_fns, ext_consts=ext_consts, renames=renames, inline_fns=inline_fns)
 
 def obligations_for(ctx):
     """named obligations per property: labelled ensures clauses + one body-safety obligation per fn tagged safety=..."""
@@ -231,13 +231,13 @@ def main(argv):
     baseline = {}
     bp = os.path.join(VERIF, "baseline_fns.json")
     if os.path.exists(bp): baseline = json.load(open(bp))
-    stub = set(); drop_uses = set(); stub_reason = {}; drop_contracts = set(); ext_consts = set(); renames = {}
+    stub = set(); drop_uses = set(); stub_reason = {}; drop_contracts = set(); ext_consts = set(); renames = {}; inline_fns = set(); inline_tried = False
     base_sigs = {}
     if os.path.exists(os.path.join(VERIF, "baseline_sigs.json")): base_sigs = json.load(open(os.path.join(VERIF, "baseline_sigs.json")))
     runs = []; undecided = None; base = None
     for attempt in range(10):
         try:
-            text, lines_meta, ctx = build_unit(a.src, unit, stub, drop_uses, drop_contracts, ext_consts, renames)
+            text, lines_meta, ctx = build_unit(a.src, unit, stub, drop_uses, drop_contracts, ext_consts, renames, inline_fns)
         except extract.ExtractError as e:
             return global_fallback(a, props, claimed, "extraction failed: %s" % e)
         lmap = LineMap(lines_meta)
@@ -252,6 +252,12 @@ def main(argv):
                 f = fns_by_key[cands[0]]
                 if (f["file"], f["impl"], f["fn"]) not in renames: renames[(f["file"], f["impl"], f["fn"])] = npart; more = True
         if more: continue
+        # brand-new private helpers have no contract: inline them at their call sites (R-inline) so that callers are checked on what they now do
+        if baseline and not inline_tried:
+            inline_tried = True
+            fresh = set(k for k, f in fns_by_key.items() if k not in baseline and not f["contract"] and not f["external_body"] and f.get("sig_norm") is not None)
+            if fresh:
+                inline_fns = fresh; continue
         r = run_verus(unit)
         crashed = (r["json"] is None) or ("panicked at" in r["stderr"]) or ("internal compiler error" in r["stderr"])
         fails, frontend, canary = classify(r, lmap, fns_by_key) if r["json"] is not None or r["diags"] else ([], [], False)
@@ -314,6 +320,8 @@ def main(argv):
     new_fns = set(k for k in fns_by_key if baseline and k not in baseline and not fns_by_key[k]["contract"])
     new_names = set(fns_by_key[k]["fn"] for k in new_fns)
     changed_fns = set(k for k, f in fns_by_key.items() if baseline and baseline.get(k) != f["body_hash"])
+    inlined_names = set(getattr(ctx, "inline_defs", {}) or {})
+    for n in sorted(inlined_names): print("NOTE: new helper `%s` has no contract; it was inlined at its call sites (R-inline) so its callers are checked on what they now do" % n)
     per_prop_obl = obligations_for(ctx)
     known = json.load(open(os.path.join(VERIF, "known_findings.json")))
     rc = 0
@@ -371,6 +379,7 @@ def main(argv):
             if fn.get("hints_dropped"): return "proof hints lost their anchors (%s)" % ", ".join(fn["hints_dropped"])
             bt = fn.get("body_text", "")
             for n in new_names:
+                if n in inlined_names: continue
                 if re.search(r"\b%s\s*\(" % re.escape(n), bt): return "calls new function `%s` which has no contract" % n
             if f["fn"] in new_fns: return "function is new and has no contract"
             if getattr(ctx, "lost_contracts", None) and f["fn"] in changed_fns and any(lc["fn"].split("|")[0] == (f["fn"] or "").split("|")[0] for lc in ctx.lost_contracts):
